@@ -83,6 +83,8 @@ def build_for(spec, builder):
         if builder.gen_recorder() not in o.deps:
             o.deps.append(builder.gen_recorder())
         objs.append(o)
+    if "optable_ref" in spec.needs:
+        objs.append(builder.optable_ref_obj(spec.variant))
     if "sys" in spec.needs:
         objs.append(builder.harness_obj(os.path.join(VERIF, "harness", "common", "shim_sys.cpp"), spec.variant))
     if "lib" in spec.needs or "shim" in spec.needs or "sys" in spec.needs:
